@@ -443,6 +443,10 @@ MUTANTS += [
     {"id": "global-twin-swap-eq", "kind": "twin", "props": ALL, "global": "swap-eq"},
     {"id": "global-twin-sub-as-add-neg", "kind": "twin", "props": ALL, "global": "sub-as-add-neg"},
     {"id": "global-twin-isinstance-split", "kind": "twin", "props": ALL, "global": "isinstance-split"},
+    {"id": "global-twin-flip-ternary", "kind": "twin", "props": ALL, "global": "flip-ternary"},
+    {"id": "global-twin-unpack-in-body", "kind": "twin", "props": ALL, "global": "unpack-in-body"},
+    {"id": "global-twin-listcomp-to-loop", "kind": "twin", "props": ALL, "global": "listcomp-to-loop"},
+    {"id": "global-twin-values-as-items", "kind": "twin", "props": ALL, "global": "values-as-items"},
 ]
 
 MUTANTS += [
